@@ -500,6 +500,98 @@ theorem popKey_returns_removed (s : St) (k : Key) (o : Obj) (h : Inv s)
             exact ⟨fun e' => e e'.symm, ih hk.2⟩
       exact this _ h'.2 hmem
 
+/-! ### Frame: a mutator touches only the entry it is about -/
+
+theorem Dict.get?_set (d : Dict) (k k' : Key) (v : Obj) :
+    Dict.get? (Dict.set d k v) k' = if k' = k then some v else Dict.get? d k' := by
+  induction d with
+  | nil =>
+    by_cases h : k' = k
+    · subst h; simp [Dict.set, Dict.get?]
+    · have h2 : ¬ k = k' := fun e => h e.symm
+      simp [Dict.set, Dict.get?, h, h2]
+  | cons kv d ih =>
+    obtain ⟨k0, v0⟩ := kv
+    simp only [Dict.set]
+    by_cases h0 : k0 = k
+    · subst h0
+      by_cases h : k' = k0
+      · subst h; simp [Dict.get?]
+      · have h2 : ¬ k0 = k' := fun e => h e.symm
+        simp [Dict.get?, h, h2]
+    · simp only [h0, if_false, Dict.get?, ih]
+      by_cases h : k0 = k'
+      · subst h; simp [h0]
+      · simp [h]
+
+theorem Dict.get?_erase_ne (d : Dict) (k k' : Key) (h : k' ≠ k) :
+    Dict.get? (Dict.erase d k) k' = Dict.get? d k' := by
+  induction d with
+  | nil => rfl
+  | cons kv d ih =>
+    obtain ⟨k0, v0⟩ := kv
+    simp only [Dict.erase]
+    by_cases h0 : k0 = k
+    · subst h0
+      have h2 : ¬ k0 = k' := fun e => h e.symm
+      simp [Dict.get?, h2]
+    · simp only [h0, if_false, Dict.get?, ih]
+
+/-- **C18 (key assignment touches only its key).**  On a Selector with names, `objects[k] = o` maps `k`
+to `o` and leaves every other key with the object it had — no name is lost or re-pointed. -/
+theorem setKey_frame (s : St) (k : Key) (o : Obj) (hne : s.names ≠ [])
+    (hok : (step str s (.setKey k o)).2.err = none) :
+    Dict.get? (step str s (.setKey k o)).1.names k = some o ∧
+    ∀ k', k' ≠ k → Dict.get? (step str s (.setKey k o)).1.names k' = Dict.get? s.names k' := by
+  have hc : convertNames str s = s := by simp [convertNames, hne]
+  have key : ∀ s' : St, s'.names = Dict.set s.names k o →
+      Dict.get? s'.names k = some o ∧ ∀ k', k' ≠ k → Dict.get? s'.names k' = Dict.get? s.names k' := by
+    intro s' hs'
+    rw [hs']
+    exact ⟨by simp [Dict.get?_set], fun k' h' => by simp [Dict.get?_set, h']⟩
+  simp only [step, hc, setKeyCore] at hok ⊢
+  cases hg : Dict.get? s.names k with
+  | none => exact key { s with objs := s.objs ++ [o], names := Dict.set s.names k o } rfl
+  | some old =>
+    cases hi : indexOf? s.objs old with
+    | none => simp [hg, hi] at hok
+    | some idx =>
+      simp only [hi]
+      exact key { s with objs := s.objs.set idx o, names := Dict.set s.names k o } rfl
+
+/-- **C18 (`pop(key)` touches only its key).**  Every other key keeps its object. -/
+theorem popKey_frame (s : St) (k : Key) (hok : (step str s (.popKey k)).2.err = none) :
+    ∀ k', k' ≠ k → Dict.get? (step str s (.popKey k)).1.names k' = Dict.get? s.names k' := by
+  intro k' h'
+  simp only [step] at hok ⊢
+  by_cases hst : s.objs ≠ [] ∧ s.names = []
+  · simp [hst] at hok
+  · simp only [hst, if_false] at hok ⊢
+    cases hg : Dict.get? s.names k with
+    | none => simp [hg] at hok
+    | some o =>
+      simp only [hg] at hok ⊢
+      cases hr : removeFirst s.objs o with
+      | none => simp [hr] at hok
+      | some l => simp [Dict.get?_erase_ne _ _ _ h']
+
+/-- **C18 (`pop(index)` / `remove` drop only the names of the removed object).**  Every (key, object)
+pair whose object is not the removed one is still there, in the same order. -/
+theorem popIdx_frame (s : St) (i : Int) (n : Nat) (hn : normIdx s.objs.length i = some n) :
+    (step str s (.popIdx i)).1.names = s.names.filter (fun kv => kv.2 ≠ s.objs.getD n 0) := by
+  simp [step, hn]
+
+theorem remove_frame (s : St) (o : Obj) (hok : (step str s (.remove o)).2.err = none) :
+    (step str s (.remove o)).1.names = s.names.filter (fun kv => kv.2 ≠ o) := by
+  simp only [step] at hok ⊢
+  split
+  · rfl
+  · rename_i hr; simp [hr] at hok
+
+/-- a Selector declared with a dictionary of unique objects under unique keys is consistent -/
+theorem declared_dict_inv (d : Dict) (c : Bool) (hk : (d.map (·.1)).Nodup) (hv : (d.map (·.2)).Nodup) :
+    Inv { objs := d.map (·.2), names := d, checkOnSet := c } := ⟨hv, Or.inr ⟨rfl, hk⟩⟩
+
 /-- **C18 (one notification per mutation).**  Every successful mutator call
 raises exactly one `objects` notification, a failing one none, and a value
 assignment none. -/
@@ -580,6 +672,24 @@ theorem C18_full_refuted : ¬ C18_full str := by
 go through the membership check (or hit a known object) is covered by `run_preserves_inv`. -/
 theorem okFull_of_ok (s : St) (op : Op) (h : Op.ok s op) : Op.okFull s op := by
   cases op <;> simp_all [Op.okFull]
+
+/-! ### The hypothesis `hstr`, needed: two unique objects with the same name
+
+Names of a list-declared Selector are computed from the objects (`obj.name`, `obj.__name__`, else
+`str(obj)`), and two different objects can have the same one (`1000` and `'1000'`).  Then `items()` and
+`get_range()` — dictionaries keyed by name — hold one object fewer than the list view.  The objects are
+unique and every operation is style-consistent, so this is a violation of the property as worded
+(KNOWN_FINDINGS `str-collision-drops-object`); the theorems above carry `hstr` and do not cover it. -/
+
+/-- **C18 without `hstr`: refuted.**  For a `str` that sends two objects to the same name the views of a
+freshly declared, consistent Selector disagree. -/
+theorem C18_str_collision_refuted :
+    ∃ (str : Obj → Key) (s : St), Inv s ∧ (rangeView str s).map (·.2) ≠ listView s := by
+  refine ⟨fun _ => "x", { objs := [1, 2], names := [] }, by simp [Inv], ?_⟩
+  simp [rangeView, listView, namedObjs, nameOf, Dict.set]
+
+/-- the driver's `pyStr` is such a `str` -/
+example : pyStr 7 = pyStr (-7) ∧ (7 : Obj) ≠ -7 := by decide
 
 /-! ### Non-vacuity: concrete states and histories that meet the hypotheses -/
 
